@@ -1916,8 +1916,15 @@ impl<Front: SocketHandler + std::fmt::Debug, L: ListenerHandler + L7ListenerHand
                 if !matches!(stream.state, StreamState::Linked(_) | StreamState::Unlinked) {
                     continue;
                 }
+                // Only a request that is complete: `is_completed()` alone is
+                // true for a request whose body is still arriving whenever the
+                // bytes received so far have been forwarded, and marking such a
+                // stream as ended made the DATA frames the client sent next a
+                // STREAM_CLOSED connection error -- an in-flight upload was cut
+                // by the soft stop instead of being drained.
                 if stream.front.consumed
                     && stream.front.storage.is_empty()
+                    && stream.front.is_terminated()
                     && stream.front.is_completed()
                 {
                     stream.front_received_end_of_stream = true;
